@@ -170,6 +170,7 @@ def run(ctx):
                 break
 
     scan_windows(ctx, ctx.budget(90, 2500))
+    mgs_premises(ctx, ctx.budget(80, 2000))
 
 
 def scan_instance(rng, big):
@@ -265,3 +266,81 @@ def scan_windows(ctx, n):
                            {"instance": zoo.describe(info), "options": o, "reference_options": off, "window": [size, shift],
                             "reference": list(ref), "got": list(got)})
                 break
+
+
+def mgs_premises(ctx, n):
+    """Premises of C05_min_gen_set_option_is_sound, checked on the objects the code builds: whenever MinFlowDecomp consults
+    MinGenSet for its lower bound, (a) the s-t graph has the shape the theorem assumes (nodes attached to the synthetic source
+    have no other in-edge; exactly the synthetic edges are ignored), (b) the numbers handed over are flow values of edges to
+    be explained, (c) the total is the flow over the edges leaving the graph's sources (LowerBounds.src_cut), (d) multiplicity
+    1, same weight type, no partition constraints unless asked for; and when a weighted edge is ignored MinGenSet is not
+    consulted at all."""
+    import flowpaths as fp
+    import flowpaths.minflowdecomp as mfdmod
+    real = mfdmod.mgs.MinGenSet
+    for i in range(n):
+        rng = ctx.rng("mgsprem", i)
+        info = scan_instance(rng, False) if i % 2 else zoo.make(rng, "MinFlowDecomp", node=False, with_starts=False, exact=True)
+        seen = []
+
+        class Tap(real):
+            def __init__(self, *a, **kw):
+                seen.append(dict(kw, _args=a)); super().__init__(*a, **kw)
+        pc = rng.random() < 0.3
+        opts = {"use_min_gen_set_lowerbound": True, "optimize_with_greedy": False, "use_min_gen_set_lowerbound_partition_constraints": pc}
+        mfdmod.mgs.MinGenSet = Tap
+        try:
+            m = zoo.construct(info, opts); lb = m.get_lowerbound_k()
+        except ValueError:
+            ctx.dist("mgs-premises:ValueError"); continue
+        finally:
+            mfdmod.mgs.MinGenSet = real
+        G = info["G"]; ign = set(map(tuple, info["kwargs"].get("elements_to_ignore", [])))
+        rep = {"instance": zoo.describe(info), "options": opts, "captured": [{k: v for k, v in c.items() if k != "solver_options"} for c in seen]}
+        ctx.case(["mgsprem", zoo.describe(info), pc], nontrivial=bool(seen)); ctx.count("E2_min_gen_set_premises", "cases")
+        weighted_ignored = any(G.has_edge(*e) and "flow" in G.edges[e] for e in ign)
+        if weighted_ignored:
+            ctx.count("E2_min_gen_set_premises", "guard_cases")
+            if seen:
+                ctx.report("MinFlowDecomp consulted MinGenSet for the lower bound although a weighted edge is ignored (the bound is only valid "
+                           "when none is)", rep)
+            continue
+        if not seen:
+            ctx.report("MinFlowDecomp did not consult MinGenSet although use_min_gen_set_lowerbound is on and no weighted edge is ignored", rep)
+            continue
+        c = seen[0]; st = fp.stDAG(G)
+        s, t = st.source, st.sink
+        live = [e for e in G.edges() if e not in ign]
+        flows = {G.edges[e]["flow"] for e in live if "flow" in G.edges[e]}
+        sources = [v for v in G.nodes() if G.in_degree(v) == 0]
+        cut = [(u, v) for u in sources for v in G.successors(u) if (u, v) not in ign]
+        problems = []
+        for u in st.successors(s):
+            if any(x != s for x in st.predecessors(u)):
+                problems.append(f"node {u} is attached to the synthetic source and has another in-edge")
+        # the ignore list of the k-model the search then builds (the instance the theorem speaks about)
+        kw_k = {k_: v for k_, v in info["kwargs"].items()}
+        km = fp.kFlowDecomp(G, k=max(1, lb), **kw_k)
+        kign = set(map(tuple, km.edges_to_ignore)); synth = set(map(tuple, km.G.source_sink_edges))
+        if {e for e in kign - synth if km.G.has_edge(*e)}:
+            problems.append("a non-synthetic edge of the graph is ignored")
+        if not synth <= kign:
+            problems.append("a synthetic edge is not ignored in the k-model")
+        if not set(c.get("numbers", [])) <= flows:
+            problems.append(f"numbers {sorted(set(c.get('numbers', [])) - flows)} are not flow values of edges to be explained")
+        if c.get("total") != sum(G.edges[e]["flow"] for e in cut):
+            problems.append(f"total {c.get('total')} is not the flow over the edges leaving the sources ({sum(G.edges[e]['flow'] for e in cut)})")
+        if c.get("max_multiplicity", 1) != 1:
+            problems.append(f"max_multiplicity {c.get('max_multiplicity')}")
+        if c.get("weight_type") is not info["kwargs"].get("weight_type", float):
+            problems.append(f"weight type {c.get('weight_type')}")
+        if (c.get("partition_constraints") is not None) != pc:
+            problems.append(f"partition constraints {c.get('partition_constraints')} although the option is {pc}")
+        if pc and c.get("partition_constraints"):
+            for part in c["partition_constraints"]:
+                if sum(part) != c.get("total") or not set(part) <= flows:
+                    problems.append(f"partition constraint {part} does not split the total into flow values")
+        ctx.count("E2_min_gen_set_premises", "premises_checked")
+        if problems:
+            ctx.report("the MinGenSet instance built for the lower bound does not meet the premises of C05_min_gen_set_option_is_sound: "
+                       + "; ".join(problems), rep)
